@@ -1,20 +1,20 @@
 #!/bin/bash
-# usage: tools_seed_confirm.sh <ID> <variant> : confirms a seeded change produced by a sub-agent in /tmp/seed/<ID>/seed_out/<variant>
+# usage: tools_seed_confirm.sh <ID> <variant> [stored-variant] [source-dir-name] : confirms a seeded change produced by a sub-agent in /tmp/seed/<ID>/seed_out/<variant>
 # (patch applies to /repo HEAD, builds, touched packages' tests pass, demo fails with patch and passes without), then stores it in /verif/seeded/<ID>-<variant>/
 set -u
-ID=$1; V=$2
-SRC=/tmp/seed/$ID/seed_out/$V
-WT=/tmp/confirm-$ID-$V
+ID=$1; V=$2; OUTV=${3:-$2}; SRCDIR=${4:-$1}
+SRC=/tmp/seed/$SRCDIR/seed_out/$V
+WT=/tmp/confirm-$ID-$OUTV
 export GOFLAGS=-mod=mod GOPROXY=off
 git -C /repo worktree remove --force $WT 2>/dev/null
 git -C /repo worktree add -q --detach $WT HEAD || exit 2
 cd $WT
 cleanup() { cd /; git -C /repo worktree remove --force $WT 2>/dev/null; }
 trap cleanup EXIT
-git apply --check $SRC/patch.diff || { echo "RESULT $ID-$V: patch does not apply"; exit 1; }
+git apply --check $SRC/patch.diff || { echo "RESULT $ID-$OUTV: patch does not apply"; exit 1; }
 PKGDIR=$(python3 -c "import json;print(json.load(open('$SRC/meta.json'))['demo_pkg_dir'])")
 DEMO=$(ls $SRC/demo_*_test.go 2>/dev/null | head -1)
-[ -z "$DEMO" ] && { echo "RESULT $ID-$V: no demo test"; exit 1; }
+[ -z "$DEMO" ] && { echo "RESULT $ID-$OUTV: no demo test"; exit 1; }
 cp $DEMO $PKGDIR/
 DEMON=$(basename $DEMO)
 TESTRE=$(grep -o '^func Test[A-Za-z0-9_]*' $DEMO | sed 's/func //' | paste -sd'|')
@@ -35,14 +35,14 @@ git checkout -q -- .
 capsh --drop=cap_dac_override,cap_dac_read_search -- -c "go test -vet=off -count=1 $PKGS" > /tmp/confirm-$ID-$V.tests0.log 2>&1
 FAIL0=$(grep -E '^--- FAIL|^FAIL' /tmp/confirm-$ID-$V.tests0.log | sort -u)
 SAME=no; [ "$FAILP" = "$FAIL0" ] && SAME=yes
-echo "RESULT $ID-$V: demo_without_patch_exit=$R0 build_exit=$RB demo_with_patch_exit=$R1 tests_exit=$RT same_failing_set_as_clean=$SAME pkgs=[$PKGS]"
+echo "RESULT $ID-$OUTV: demo_without_patch_exit=$R0 build_exit=$RB demo_with_patch_exit=$R1 tests_exit=$RT same_failing_set_as_clean=$SAME pkgs=[$PKGS]"
 if [ $R0 -eq 0 ] && [ $RB -eq 0 ] && [ $R1 -ne 0 ] && [ $SAME = yes ]; then
-  D=/verif/seeded/$ID-$V; mkdir -p $D
+  D=/verif/seeded/$ID-$OUTV; mkdir -p $D
   cp $SRC/patch.diff $D/patch.diff; cp $DEMO $D/; 
   python3 - <<PY
 import json
 m=json.load(open('$SRC/meta.json'))
-out={"property":"$ID","variant":"$V","breaks":m.get("summary"),"needs_to_manifest":m.get("needs_to_manifest"),"files_changed":m.get("files_changed"),"demo_pkg_dir":m.get("demo_pkg_dir"),
+out={"property":"$ID","variant":"$OUTV","breaks":m.get("summary"),"needs_to_manifest":m.get("needs_to_manifest"),"files_changed":m.get("files_changed"),"demo_pkg_dir":m.get("demo_pkg_dir"),
  "confirmed":{"against_repo_head":"$(git -C /repo rev-parse --short HEAD)","demo_passes_without_patch":True,"builds_with_patch":True,"demo_fails_with_patch":True,"existing_tests_of_touched_packages":"same pass/fail set as the clean tree (exit $RT)","ran":"tools_seed_confirm.sh $ID $V in scratch worktree $WT"},
  "detected_by":None}
 json.dump(out,open('$D/meta.json','w'),indent=1)
